@@ -16,7 +16,7 @@
    C11_refuted_second_view). *)
 From Coq Require Import List NArith Bool.
 From Delb.Base Require Import PyStr PySplit.
-From Delb.Gen Require Import GenAttr.
+From Delb.Gen Require Import GenAttr GenAttrKey.
 From Delb.Attr Require Import AttrModel AttrEnc AttrFacts.
 Import ListNotations.
 
@@ -26,6 +26,14 @@ Theorem C11_clark_generated : forall s,
   match spec_clark s with Some p => Ok p | None => Crash ValueError end.
 Proof. exact decon_spec. Qed.
 Print Assumptions C11_clark_generated.
+
+(* the model's key function is TagAttributes._etree_key as regenerated from _delb/nodes.py on this run
+   (nsmap.get(None) = Some dns, or None when no default namespace is in scope) *)
+Theorem C11_etree_key_generated : forall dns st q,
+  etree_key dns st q = etree_key_gen (Some dns) st q /\
+  (null dns = true -> etree_key dns st q = etree_key_gen None st q).
+Proof. exact etree_key_generated. Qed.
+Print Assumptions C11_etree_key_generated.
 
 (* Every operation (get/set/del/contains/iter/len/pop/update on the mapping, the node subscripts, value /
    local_name / namespace assignment through a held object) on a well-formed state, inside the guard,
@@ -163,6 +171,49 @@ Theorem C11_views : forall y a i k v,
   snd (sys_run y [ODel a; OValue i]) = [RNone; RStr v].
 Proof. exact view_keeps_value. Qed.
 Print Assumptions C11_views.
+
+(* ... renaming through the held object (local_name / namespace assignment): the entry moves with its value,
+   the object is a view of the new entry and reads its value *)
+Theorem C11_views_rename_local : forall y i k v n,
+  sys_wf y = true -> step_safe y (OSetLocal i n) = true ->
+  nth_error (d_views (abs_sys y)) i = Some (VLive k) -> dget (d_dict (abs_sys y)) k = Some v -> k <> (fst k, n) ->
+  let y1 := fst (sys_step y (OSetLocal i n)) in
+  snd (sys_step y (OSetLocal i n)) = RNone /\
+  dget (d_dict (abs_sys y1)) (fst k, n) = Some v /\ dget (d_dict (abs_sys y1)) k = None /\
+  nth_error (d_views (abs_sys y1)) i = Some (VLive (fst k, n)) /\
+  snd (sys_step y1 (OValue i)) = RStr v.
+Proof. exact view_renamed_local. Qed.
+Print Assumptions C11_views_rename_local.
+
+Theorem C11_views_rename_ns : forall y i k v ns,
+  sys_wf y = true -> step_safe y (OSetNs i ns) = true ->
+  nth_error (d_views (abs_sys y)) i = Some (VLive k) -> dget (d_dict (abs_sys y)) k = Some v ->
+  k <> norm (d_dns (abs_sys y)) (ns, snd k) ->
+  let k' := norm (d_dns (abs_sys y)) (ns, snd k) in
+  let y1 := fst (sys_step y (OSetNs i ns)) in
+  snd (sys_step y (OSetNs i ns)) = RNone /\
+  dget (d_dict (abs_sys y1)) k' = Some v /\ dget (d_dict (abs_sys y1)) k = None /\
+  nth_error (d_views (abs_sys y1)) i = Some (VLive k') /\
+  snd (sys_step y1 (OValue i)) = RStr v.
+Proof. exact view_renamed_ns. Qed.
+Print Assumptions C11_views_rename_ns.
+
+(* ... a value written through the mapping (any accessor of the entry) is read through the held object,
+   and a value written through the object is the node's value *)
+Theorem C11_views_write : forall y a i k v',
+  sys_wf y = true -> step_safe y (OSet a v') = true -> acc_key (abs_sys y) a = Some k ->
+  nth_error (d_views (abs_sys y)) i = Some (VLive k) ->
+  snd (sys_run y [OSet a v'; OValue i]) = [RNone; RStr v'].
+Proof. exact view_reads_write. Qed.
+Print Assumptions C11_views_write.
+
+Theorem C11_views_write_through : forall y i k v',
+  sys_wf y = true -> nth_error (d_views (abs_sys y)) i = Some (VLive k) ->
+  let y1 := fst (sys_step y (OSetValue i v')) in
+  snd (sys_step y (OSetValue i v')) = RNone /\ dget (d_dict (abs_sys y1)) k = Some v' /\
+  snd (sys_step y1 (OValue i)) = RStr v'.
+Proof. exact view_write_shows. Qed.
+Print Assumptions C11_views_write_through.
 
 (* TagAttributes.__eq__ (equal sizes, then every item of self has its key among other's keys and is found
    in other with an equal value) is equality of the two dictionaries, whatever the two default namespaces *)
